@@ -129,6 +129,19 @@ def check_fetcher(ctx: Ctx, rep: Report, wm: WalkModel, f: FuncInfo) -> None:
             requested_name = a
             pairing_ok = x == req and y == out and not defs.all_values(req)
             pairing_detail = f"zip({x}, {y}) with request parameter {req} and returned list {out}"
+            if not pairing_ok and y == out:
+                # predecessor list: the requested OIDs followed by the OIDs of the result itself -> position i is paired
+                # with oids[i] in the first row and with result[i - n].oid below it
+                pexp = defs.expand(it.args[0])
+                if isinstance(pexp, ast.BinOp) and isinstance(pexp.op, ast.Add):
+                    left_ok = norm(pexp.left) in (req, f"list({req})")
+                    rhs = pexp.right
+                    right_ok = isinstance(rhs, ast.ListComp) and len(rhs.generators) == 1 and not rhs.generators[0].ifs and norm(rhs.generators[0].iter) == out and norm(rhs.elt) == f"{norm(rhs.generators[0].target)}.oid"
+                    if left_ok and right_ok:
+                        pairing_ok = True
+                        pairing_detail = f"zip({req} + [v.oid for v in {out}], {out}): predecessor of position i is the request (first row) or the binding one row above"
+                        retrieved_var = b
+                        requested_name = a
         elif isinstance(it, ast.Call) and isinstance(it.func, ast.Name) and it.func.id == "enumerate" and len(it.args) == 1 and isinstance(tgt, ast.Tuple) and len(tgt.elts) == 2:
             idx, b = norm(tgt.elts[0]), norm(tgt.elts[1])
             retrieved_var = b
